@@ -102,7 +102,26 @@ var c09QueryAlpha = []rune("ab1 -_/.é")
 
 // genAction draws one action, applies it to the model and returns its spelling.
 func (m *uiModel) genAction(t *rapid.T, classes map[string]bool) string {
-	class := rapid.SampledFrom([]string{"put", "put", "edit", "edit", "nav", "nav", "sel", "sel", "change-query", "pos", "put-from-current"}).Draw(t, "class")
+	class := rapid.SampledFrom([]string{"put", "put", "edit", "edit", "nav", "nav", "sel", "sel", "change-query", "pos", "put-from-current", "hidden-input"}).Draw(t, "class")
+	if class == "hidden-input" {
+		// the input section is hidden for a while ("you can no longer type in queries"): whatever
+		// editing action runs meanwhile, the query is the same when the section is shown again.
+		// Where the cursor is then is not documented: it is put at the end afterwards.
+		var acts []string
+		if mv := rapid.SampledFrom([]string{"", "beginning-of-line", "backward-char", "backward-word", "forward-char"}).Draw(t, "moveBefore"); mv != "" {
+			m.ed.Apply(mv, "")
+			acts = append(acts, mv)
+		}
+		acts = append(acts, rapid.SampledFrom([]string{"hide-input", "toggle-input"}).Draw(t, "hide"))
+		for i, n := 0, rapid.IntRange(1, 3).Draw(t, "hiddenEdits"); i < n; i++ {
+			a := rapid.SampledFrom([]string{"delete-char", "backward-delete-char", "put(z)", "put(xy)", "backward-char", "forward-char", "beginning-of-line", "change-query(q)", "clear-query"}).Draw(t, "hiddenEdit")
+			acts = append(acts, a)
+		}
+		acts = append(acts, rapid.SampledFrom([]string{"show-input", "toggle-input"}).Draw(t, "show"), "end-of-line")
+		m.ed.Apply("end-of-line", "")
+		classes["edit"] = true
+		return strings.Join(acts, "+")
+	}
 	if class == "put-from-current" {
 		// a query edit that is likely to keep the current line in the list (what --track is about):
 		// append a character of that line (chosen against the list as it is before this POST)
